@@ -431,7 +431,8 @@ def run_framing(cases):
 # ---------------------------------------------------------------------------
 # C06 outbound framing
 
-OUT_TEXTS = ["plain", "line\nbreak", "cr\rlf\r\n", "sep  \u0085", "nul\x00", "quote\"\\", "astral \U0001F600", "é€", ""]
+OUT_TEXTS = ["plain", "line\nbreak", "cr\rlf\r\n", "sep  \u0085", "nul\x00", "quote\"\\", "astral \U0001F600", "é€", "",
+             "del\x7f c1 \x80\x9f", "c0 \x01\x08\x0b\x0c\x1b\x1f", "bom \ufeff zw \u200b nbsp \u00a0"]
 OUT_SHAPES = ["typedReq", "typedNotif", "typedResp", "typedErr", "dict", "str", "bigTyped", "badObject", "badDict", "badSurrogateStr"]
 OUT_BAD = {"badObject", "badDict", "badSurrogateStr"}
 
@@ -440,8 +441,8 @@ def make_item(shape, n, text, rng):
     """returns (item to put on the write stream, expected decoded value or None)"""
     from chuk_mcp.protocol.messages.json_rpc_message import JSONRPCRequest, JSONRPCNotification, JSONRPCResponse, JSONRPCError
 
-    payload = {"marker": n, "t": text, "nested": {"k": [text, None, 1.5, {"x": text}]}, "nil": None}
-    shown = {"marker": n, "t": text, "nested": {"k": [text, None, 1.5, {"x": text}]}}
+    payload = {"marker": n, "t": text, "nested": {"k": [text, None, 1.5, {"x": text}]}, "nil": None, "key " + text: "v"}
+    shown = {"marker": n, "t": text, "nested": {"k": [text, None, 1.5, {"x": text}]}, "key " + text: "v"}
     if shape == "bigTyped":
         big = dict(payload, blob="x" * 70000)
         return JSONRPCRequest(jsonrpc="2.0", id="i%d" % n, method="tools/call", params=big), {"jsonrpc": "2.0", "id": "i%d" % n, "method": "tools/call", "params": big}
